@@ -29,6 +29,8 @@ type directProg struct {
 	sameAs  string   // a sibling program whose trace must be identical
 	wantErr string   // substring required in the error text of src ("" = no requirement)
 	sig     string
+	noCtx   bool // run with vm.Execute (a context that cannot be cancelled)
+	ordered bool // want is the exact sequence, not a multiset
 }
 
 type modelProp struct {
@@ -171,7 +173,10 @@ func runDirect(c *wk.Case, mp *modelProp, d directProg) {
 	c.Tag("direct:" + d.name)
 	for rep := 0; rep < 6; rep++ {
 		real := realrun.Run(d.src)
-		c.Eval("direct|"+d.src, true)
+		if d.noCtx {
+			real = realrun.RunNoCtx(d.src)
+		}
+		c.Eval("direct|"+d.name+"|"+d.src, true)
 		c.Events(len(real.Trace))
 		input := map[string]interface{}{"source": d.src, "observed_trace": real.Trace, "observed_error": real.ErrText}
 		if real.Panicked {
@@ -195,8 +200,10 @@ func runDirect(c *wk.Case, mp *modelProp, d directProg) {
 			input["sibling_trace"] = ref.Trace
 		} else {
 			want = append([]string(nil), want...)
-			sort.Strings(want)
-			sort.Strings(got)
+			if !d.ordered {
+				sort.Strings(want)
+				sort.Strings(got)
+			}
 		}
 		if strings.Join(got, "\n") != strings.Join(want, "\n") {
 			input["expected"] = want
@@ -299,21 +306,21 @@ func init() {
 	})
 	exits := []string{"break", "continue", "return", "throw", "runtime-error"}
 	registerModelProp(&modelProp{
-		id: "C04", prof: gen.ProfScope, fixed: tryControlFixed(),
+		id: "C04", prof: gen.ProfScope, fixed: tryControlFixed(), direct: c04Direct(),
 		volume:  []volScenario{{"bigscope-a", c04BigScope}, {"bigscope-b", c04BigScope}, {"bigscope-c", c04BigScope}, {"bigscope-d", c04BigScope}, {"closures", c04Closures}, {"recursion", c04Recursion}, {"fresh-invocation", c04FreshInvocation}, {"hot-name", c04HotName}},
 		rule:    "PRNG-generated terminating programs (scope profile: a 4-name pool assigned, var-declared and read back at every nesting level of if/else-if/else, the loop forms, for-in, switch, try/catch/finally, module, function literals, closures, recursion; every block left by every exit path) run on the real interpreter; the recorded read-back trace, result and error status must be admitted by a variant of the reference model. Non-trivial = the program contains at least one shadowing declaration and at least one non-normal exit (break/continue/return/throw/runtime error); distinct = distinct source text.",
 		nontriv: func(f map[string]int) bool { return hasAny(f, "shadow") && hasAny(f, exits...) },
 	})
 	registerModelProp(&modelProp{
-		id: "C08", prof: gen.ProfControl, fixed: tryControlFixed(), direct: c08Direct(),
-		volume: []volScenario{{"cond-stream-a", c08CondStream}, {"cond-stream-b", c08CondStream}, {"long-loops", c08LongLoops}, {"wide-branches", c08WideBranches}},
+		id: "C08", prof: gen.ProfControl, fixed: tryControlFixed(), direct: append(c08Direct(), c08ReturnDirect()...),
+		volume: []volScenario{{"cond-stream-a", c08CondStream}, {"cond-stream-b", c08CondStream}, {"long-loops", c08LongLoops}, {"wide-branches", c08WideBranches}, {"switch-vs-eq", c08SwitchVsEq}},
 		rule:   "PRNG-generated terminating programs (control profile: nested if/else-if/else, switch with multi-expression cases and default in any position, the three loop forms with probing conditions and post expressions, for-in over lists and maps, break/continue/return at every position, conditions from every truthiness class) run on the real interpreter; the recorded probe trace, result and error status must be admitted by a variant of the reference model. Non-trivial = contains a loop or switch and at least one of break/continue/return; distinct = distinct source text.",
 		nontriv: func(f map[string]int) bool {
 			return hasAny(f, "loop-forever", "loop-cond", "loop-cfor", "loop-forin-list", "loop-forin-map", "switch") && hasAny(f, "break", "continue", "return")
 		},
 	})
 	registerModelProp(&modelProp{
-		id: "C09", prof: gen.ProfError, fixed: tryControlFixed(), direct: c09Direct(),
+		id: "C09", prof: gen.ProfError, fixed: tryControlFixed(), direct: append(c09Direct(), c09SentinelDirect()...),
 		volume: []volScenario{{"deep-defers-a", c09DeepDefers}, {"deep-defers-b", c09DeepDefers}, {"deep-defers-c", c09DeepDefers}, {"deep-defers-d", c09DeepDefers}, {"many-defers", c09ManyDefers}, {"try-stream", c09TryStream}},
 		rule:   "PRNG-generated terminating programs (error profile: try/catch/finally nested in functions, 0-5 defer statements per invocation at top level, in branches and loops, deferred host functions, closures, variadic/spread callees, failing and throwing deferred callees, throw / runtime errors / return at every point) run on the real interpreter; the recorded probe trace (including every deferred call with the arguments it received), result and error status must be admitted by a variant of the reference model. Non-trivial = contains a try or a defer and at least one throw/runtime error/return; distinct = distinct source text.",
 		nontriv: func(f map[string]int) bool {
